@@ -1,5 +1,6 @@
 (* C03 — Running an image follows the machine model from load to stop. *)
 From Lace Require Import Word Machine Isa Vm RunProofs.
+From Lace Require VmInput.
 
 (** lace's loader is the SPEC's: same accept/reject decision, same initial machine. *)
 Theorem C03_load : forall (raw inp : list N),
@@ -52,3 +53,11 @@ Theorem C03_load_wf : forall raw inp st,
   Forall (fun w => w < W) raw -> load raw inp = Some st -> wf st.
 Proof. exact load_wf. Qed.
 Print Assumptions C03_load_wf.
+
+(** Console input is consumed from the front, at most one byte per instruction (GETC and IN take
+    exactly one each; no other instruction, and no output trap however long its string, touches
+    the input). *)
+Theorem C03_input_front : forall feat instr st st', execute feat instr st = Running st' ->
+  s_inp st' = s_inp st \/ s_inp st' = tl (s_inp st).
+Proof. exact VmInput.execute_input. Qed.
+Print Assumptions C03_input_front.
